@@ -238,6 +238,11 @@ class Interp:
         while e is not None:
             chain.append(e)
             e = e.parent
+        ge = getattr(self, "ghost_env", None)
+        if ge is not None and all(x is not ge for x in chain):
+            # environments of inlined functions do not chain to the ghost environment: snapshot it as well, so that
+            # pre_loop(<ghost var>) in their loop invariants means the value at loop entry
+            chain.append(ge)
         new_parent = None
         for e in reversed(chain):
             ne = Env(new_parent, e.module)
@@ -437,6 +442,12 @@ class Interp:
         v = env.lookup(name)
         if v is not None:
             return v
+        if self.spec and getattr(self, "ghost_env", None) is not None:
+            # ghost variables of the contract are visible to every specification, also to loop invariants of
+            # functions interpreted inline (whose environments do not chain to the ghost environment)
+            v = self.ghost_env.vars.get(name)
+            if v is not None:
+                return v
         v = self.ver.module_name(env.module, name, self)
         if v is not None:
             return v
